@@ -165,8 +165,17 @@ class FieldFlow:
                 c = self.callee(m, n)
                 if c is not None:
                     if c.self_name and derived in self.direct_stores(ast.Module(body=c.node.body, type_ignores=[]), c.self_name):
-                        # the builder itself: atomic (its own "nothing to build" early exits are its business)
-                        cur = {"F"}
+                        # the builder itself: atomic (its own "nothing to build" early exits are its business) - unless one of
+                        # its exits tests the derived field itself: a builder that does nothing when the field is already set
+                        # does not refresh it, so a stale value stays stale
+                        memo = False
+                        for t in ast.walk(c.node):
+                            if isinstance(t, (ast.If, ast.While, ast.IfExp)) and any(
+                                    isinstance(x, ast.Attribute) and x.attr == derived and isinstance(x.value, ast.Name) and x.value.id == c.self_name
+                                    for x in ast.walk(t.test)):
+                                memo = True
+                        if not memo:
+                            cur = {"F"}
                         continue
                     nxt = set()
                     for s in cur:
